@@ -169,7 +169,10 @@ fn c13_strategy(ctx: &Ctx) -> BoxedStrategy<SeqCase> {
       // first subscription is kept - it may leave while the source is still being subscribed,
       // which must stop the source; what a later re-connection replays is not fixed
       let replay_cold_take = kind == ConnKind::Replay && !hot && take.is_some() && hash_seed % 2 == 0;
-      if replay_cold_take {
+      // (a source that terminates by itself runs to its end inside that first connect
+      // whatever the subscriber does: the history is complete then, and later subscribers -
+      // kept in that case - are handed all of it)
+      if replay_cold_take && !cold_terminates {
         if let Some(i) = actions.iter().position(|a| matches!(a, Action::Subscribe(_))) {
           actions.truncate(i + 1);
         }
@@ -274,6 +277,21 @@ fn c13_check(_ctx: &Ctx, c: &SeqCase) -> Report {
         }
       }
     }
+    // C05 for the Subscription that connect() returned: subscribed exactly as long as the
+    // source subscription it stands for (the last one made) is
+    if let (Some(ConnKind::Publish), Some(reported)) = (c.case.conn.as_ref(), r.log.conn_is_subscribed) {
+      if let Some(last) = r.log.probes.iter().max_by_key(|p| p.sub_no) {
+        if reported != last.final_sub {
+          rep.fail = Some(format!(
+            "the Subscription returned by connect() reports is_subscribed()=={} although the source subscription it stands for is {} | {}",
+            reported,
+            if last.final_sub { "still alive" } else { "over" },
+            render(c, r)
+          ));
+          return rep;
+        }
+      }
+    }
     let alive = r.log.probes.iter().filter(|p| p.final_sub).count();
     if alive > 1 {
       rep.fail = Some(format!("{} source subscriptions are alive at the same time | {}", alive, render(c, r)));
@@ -285,7 +303,7 @@ fn c13_check(_ctx: &Ctx, c: &SeqCase) -> Report {
 pub fn properties() -> Vec<Property> {
   vec![Property {
     id: "C13",
-    rule: "cases = call histories of length <= 12 (thorough 20) over {subscribe_i, unsubscribe_i, connect, disconnect, source emits v, source completes / errors} with 3 subscribers on publish / ref_count / replay over a hot source, a cold synchronous source or a per-subscription cold source (directly or through map; publish over cold sources: connect again once the previous connection is over, subscribers at any time); oracle = per-subscriber traces, number of source subscriptions ever made, liveness of every source subscription at the end and at most one alive, all equal to the reference state machine; non-trivial = a subscriber joins mid-stream, or a resubscribe after the count dropped to zero, or a synchronous source",
+    rule: "cases = call histories of length <= 12 (thorough 20) over {subscribe_i, unsubscribe_i, connect, disconnect, source emits v, source completes / errors} with 3 subscribers on publish / ref_count / replay over a hot source, a cold synchronous source or a per-subscription cold source (directly or through map; publish over cold sources: connect again once the previous connection is over, subscribers at any time); oracle = per-subscriber traces, number of source subscriptions ever made, liveness of every source subscription at the end and at most one alive, all equal to the reference state machine; the Subscription returned by connect() reports is_subscribed() exactly while its source subscription is alive; non-trivial = a subscriber joins mid-stream, or a resubscribe after the count dropped to zero, or a synchronous source",
     assumptions: vec![
       "after the source's own terminal only unsubscribe (replay: also late subscribe; ref_count: also a new first subscriber, for whom the source is subscribed again) is generated; replay over a cold source keeps its subscriber count above zero until the source finished (re-running a cold source into the same history is unspecified)",
     ],
